@@ -69,7 +69,7 @@ def opsC11 : List (String × Handler) := [
       | some n, some p => "ok " ++ hexFast (marshal sha ⟨n, p⟩)
       | _, _ => "bad-op"
     | _ => "bad-op"),
-  ("adnl.parse", fun
+  ("adnl.parsepkt", fun
     | [k, iv, off, s] => match unhexFast k, unhexFast iv, off.toNat?, unhexFast s with
       | some k, some iv, some off, some s =>
         let arr := Aes.keystream k iv (off + s.length + 16)
